@@ -55,7 +55,8 @@ def queueOf (qs : List (Nat × List Msg)) (k : Nat) : List Msg :=
 def setQueue (qs : List (Nat × List Msg)) (k : Nat) (q : List Msg) : List (Nat × List Msg) :=
   if qs.any (·.1 == k) then qs.map (fun e => if e.1 == k then (k, q) else e) else qs ++ [(k, q)]
 
-inductive MOp
+/-- (named `MPOp`: `F3.Instance.MOp` is the micro-operation of `F3.Proofs.ParticipantMicro`) -/
+inductive MPOp
   /-- `ReceiveMessage` of a validated message -/
   | recv (now : Int) (m : IMsg)
   /-- `ReceiveAlarm`; `tbl`, `input` are what the host returns if this alarm begins an instance, `order` the
@@ -79,7 +80,7 @@ def MState.handleDecision (s : MState) : MState :=
   | none => s
 
 /-- one API call; the effects are those of the current instance -/
-def mpstep (s : MState) : MOp → MState × List Eff
+def mpstep (s : MState) : MPOp → MState × List Eff
   | .recv now m =>
     if m.inst < s.cur then (s, [])
     else
@@ -101,7 +102,7 @@ def mpstep (s : MState) : MOp → MState × List Eff
       (({ s with active := some r.1 }).handleDecision, r.2)
   | .startAt k => (s.beginNext k, [])
 
-def mprun (s : MState) (ops : List MOp) : MState × List (Nat × Eff) :=
+def mprun (s : MState) (ops : List MPOp) : MState × List (Nat × Eff) :=
   ops.foldl (fun (acc : MState × List (Nat × Eff)) op =>
     let r := mpstep acc.1 op
     (r.1, acc.2 ++ r.2.map (fun e => (acc.1.cur, e)))) (s, [])
